@@ -7,4 +7,5 @@ for id in $(python3 -c "import json;print(' '.join(c['property_id'] for c in jso
   out=$(./check $id --tier $tier 2>&1)
   rc=$?
   echo "$id rc=$rc $(( $(date +%s) - t0 ))s $(echo "$out" | grep -cE '^VIOLATION') violations $(echo "$out" | grep -cE '^KNOWN-FINDING') known"
+  if [ $rc != 0 ]; then echo "$out" | grep -E "INFRA-ERROR|^VIOLATION" | head -5 | cut -c1-600; echo "$out" | grep -A12 "INFRA-ERROR" | tail -12 | cut -c1-300; fi
 done
